@@ -54,6 +54,7 @@ KINDS = [
     ("atom-crlf", lambda i: [_atom("ATOM", 100 + i, "CA", "THR", "A", 80 + i, _x(i, 13), eol="\r")]),
     ("atom-line-damaged", lambda i: [_atom("ATOM", 100 + i, "CA", "SER", "A", 65 + i, _x(i, 23), cut=[22, 26, 12][i % 3])]),
     ("hetatm-water-serial-of-another-atom", lambda i: [_atom("HETATM", [1, 2, 900][i % 3], "O", "HOH", "A", 75 + i, _x(i, 25))]),  # solvent block with its own numbering / wrapped serials
+    ("hetatm-ligand-numbered-like-a-water", lambda i: [_atom("HETATM", 100 + i, ["C1", "C2", "O1", "O2", "N1", "S1"][i], "LIG", "A", 98, _x(i, 26))]),  # the closing water of the file is HOH A 98
     ("ENDMDL-without-MODEL", lambda i: ["ENDMDL"]),  # stray bookkeeping record: what follows still belongs to the only model
     ("TER", lambda i: ["TER"]),
     ("END", lambda i: ["END"]),
@@ -65,7 +66,7 @@ KINDS = [
     ("CONECT", lambda i: ["CONECT  413  412  414"]),
 ]
 KIND_NAMES = [k for k, _ in KINDS]
-QUICK_KINDS = ["hetatm-water-serial-of-another-atom", "ENDMDL-without-MODEL", "hetatm-water-blank-chain", "atom-line-damaged", "water-in-atom-record", "atom-new-residue", "atom-same-residue", "atom-insertion-code", "altloc-pair-B-first", "altloc-pair-alias-name", "hetatm-water", "hetatm-water-serial-10000", "hetatm-ligand", "atom-cut-after-z", "TER", "END", "blank-line", "unknown-record"]
+QUICK_KINDS = ["hetatm-ligand-numbered-like-a-water", "hetatm-water-serial-of-another-atom", "ENDMDL-without-MODEL", "hetatm-water-blank-chain", "atom-line-damaged", "water-in-atom-record", "atom-new-residue", "atom-same-residue", "atom-insertion-code", "altloc-pair-B-first", "altloc-pair-alias-name", "hetatm-water", "hetatm-water-serial-10000", "hetatm-ligand", "atom-cut-after-z", "TER", "END", "blank-line", "unknown-record"]
 
 PREFIX = ["HEADER    TEST", _atom("ATOM", 1, "N", "GLY", "A", 1, 1.5), _atom("ATOM", 2, "CA", "GLY", "A", 1, 2.5)]
 SUFFIX = [_atom("ATOM", 900, "CA", "ALA", "A", 99, 900.5), _atom("HETATM", 901, "O", "HOH", "A", 98, 901.5), "TER", "END"]
